@@ -22,12 +22,12 @@ struct Sub {
 };
 inline pt::PortsProxy Sub::ports;
 struct Root {
-  int preset = 0; int ri = 0, rj = 0; float rf = 0; bool rt = false; int ro = 0; char rc = 0; char rs[16] = {0}; int ra[8] = {0, 0, 0, 0, 0, 0, 0, 0}; float rfa[4] = {0, 0, 0, 0}; bool en = true;
+  int preset = 0; int ri = 0, rj = 0; float rf = 0; bool rt = false; int ro = 0; char rc = 0; char rs[16] = {0}; int ra[8] = {0, 0, 0, 0, 0, 0, 0, 0}; float rfa[4] = {0, 0, 0, 0}; bool en = true; bool vp[3] = {false, false, false};
   Sub sub; Sub *psub = nullptr; Sub subs[3];
 };
 
-enum Field { PRESET, RI, RJ, RF, RT, RO, RC, RS, RA, RFA, EN, NROOT, SI = 20, SF, ST, SO, SS, SA, ON, SJ, NSUBEND };
-enum VKind { K_INT, K_FLOAT, K_BOOL, K_OPT, K_CHAR, K_STR, K_AINT, K_AFLOAT };
+enum Field { PRESET, RI, RJ, RF, RT, RO, RC, RS, RA, RFA, EN, VP, NROOT, SI = 20, SF, ST, SO, SS, SA, ON, SJ, NSUBEND };
+enum VKind { K_INT, K_FLOAT, K_BOOL, K_OPT, K_CHAR, K_STR, K_AINT, K_AFLOAT, K_ABOOL };   // K_ABOOL: 'vp#3/on' (array index in the middle of the name)
 inline VKind kind_of(int f) {
   switch (f) {
     case PRESET: case RI: case RJ: case SI: case SJ: return K_INT;
@@ -37,18 +37,19 @@ inline VKind kind_of(int f) {
     case RC: return K_CHAR;
     case RS: case SS: return K_STR;
     case RA: case SA: return K_AINT;
+    case VP: return K_ABOOL;
     default: return K_AFLOAT;
   }
 }
 inline const char *name_of(int f) {
-  static const char *r[] = {"preset", "ri", "rj", "rf", "rt", "ro", "rc", "rs", "ra", "rfa", "en"};
+  static const char *r[] = {"preset", "ri", "rj", "rf", "rt", "ro", "rc", "rs", "ra", "rfa", "en", "vp"};
   static const char *s[] = {"si", "sf", "st", "so", "ss", "sa", "on", "sj"};
   return f < NROOT ? r[f] : s[f - SI];
 }
 inline const char *spec_of(int f) {
   switch (kind_of(f)) {
     case K_INT: return "::i"; case K_FLOAT: return "::f"; case K_BOOL: return "::T:F"; case K_OPT: return "::i:c:S"; case K_CHAR: return "::c";
-    case K_STR: return "::s"; case K_AINT: return "#8::i"; default: return "#4::f";
+    case K_STR: return "::s"; case K_AINT: return "#8::i"; case K_ABOOL: return "#3/on::T:F"; default: return "#4::f";
   }
 }
 
@@ -63,7 +64,7 @@ struct Val {
     switch (k) {
       case K_FLOAT: return (float)f == (float)o.f;
       case K_STR: return s == o.s;
-      case K_AINT: return ai == o.ai;
+      case K_AINT: case K_ABOOL: return ai == o.ai;
       case K_AFLOAT: { if (af.size() != o.af.size()) return false; for (size_t k2 = 0; k2 < af.size(); k2++) if ((float)af[k2] != (float)o.af[k2]) return false; return true; }
       default: return i == o.i;
     }
@@ -73,7 +74,7 @@ struct Val {
     switch (k) {
       case K_FLOAT: snprintf(b, sizeof b, "%g", f); return b;
       case K_STR: return "\"" + vf::esc(s) + "\"";
-      case K_AINT: { std::string o = "["; for (auto x : ai) o += std::to_string(x) + " "; return o + "]"; }
+      case K_AINT: case K_ABOOL: { std::string o = "["; for (auto x : ai) o += std::to_string(x) + " "; return o + "]"; }
       case K_AFLOAT: { std::string o = "["; for (auto x : af) { snprintf(b, sizeof b, "%g ", x); o += b; } return o + "]"; }
       default: return std::to_string(i);
     }
@@ -154,6 +155,7 @@ inline std::string spell(const Val &v, const PSpec &p) {
     case K_OPT: return p.opts[(size_t)v.i];
     case K_CHAR: return std::string("'") + (char)v.i + "'";
     case K_STR: return pretty_str(v.s);
+    case K_ABOOL: { std::string o = "["; for (size_t k = 0; k < v.ai.size(); k++) o += std::string(k ? " " : "") + (v.ai[k] ? "true" : "false"); return o + "]"; }
     case K_AINT: {
       bool all = true; for (auto x : v.ai) if (x != v.ai[0]) all = false;
       if (all) return "[" + std::to_string(v.ai.size()) + "x" + std::to_string(v.ai[0]) + "]";
@@ -197,6 +199,7 @@ inline cb_t field_cb(int f) {
     case RA: return rArrayICb(ra);
     case RFA: return rArrayFCb(rfa);
     case EN: return rToggleCb(en);
+    case VP: return rArrayTCb(vp);
 #undef rObject
 #define rObject ga::Sub
     case SI: return rParamICb(si);
@@ -223,7 +226,7 @@ inline Val get_root(const Root &r, int f) {
   Val v;
   switch (f) {
     case PRESET: v.i = r.preset; break; case RI: v.i = r.ri; break; case RJ: v.i = r.rj; break; case RF: v.f = r.rf; break; case RT: v.i = r.rt; break; case RO: v.i = r.ro; break;
-    case RC: v.i = r.rc; break; case RS: v.s = r.rs; break; case RA: v.ai.assign(r.ra, r.ra + 8); break; case RFA: v.af.assign(r.rfa, r.rfa + 4); break; case EN: v.i = r.en; break;
+    case RC: v.i = r.rc; break; case RS: v.s = r.rs; break; case RA: v.ai.assign(r.ra, r.ra + 8); break; case RFA: v.af.assign(r.rfa, r.rfa + 4); break; case EN: v.i = r.en; break; case VP: for (int k = 0; k < 3; k++) v.ai.push_back(r.vp[k]); break;
   }
   return v;
 }
@@ -231,7 +234,7 @@ inline void set_root(Root &r, int f, const Val &v) {
   switch (f) {
     case PRESET: r.preset = (int)v.i; break; case RI: r.ri = (int)v.i; break; case RJ: r.rj = (int)v.i; break; case RF: r.rf = (float)v.f; break; case RT: r.rt = v.i != 0; break; case RO: r.ro = (int)v.i; break;
     case RC: r.rc = (char)v.i; break; case RS: memset(r.rs, 0, 16); memcpy(r.rs, v.s.data(), std::min<size_t>(15, v.s.size())); break;
-    case RA: for (size_t k = 0; k < 8; k++) r.ra[k] = k < v.ai.size() ? (int)v.ai[k] : 0; break; case RFA: for (int k = 0; k < 4; k++) r.rfa[k] = (float)v.af[(size_t)k]; break; case EN: r.en = v.i != 0; break;
+    case RA: for (size_t k = 0; k < 8; k++) r.ra[k] = k < v.ai.size() ? (int)v.ai[k] : 0; break; case RFA: for (int k = 0; k < 4; k++) r.rfa[k] = (float)v.af[(size_t)k]; break; case EN: r.en = v.i != 0; break; case VP: for (size_t k = 0; k < 3 && k < v.ai.size(); k++) r.vp[k] = v.ai[k] != 0; break;
   }
 }
 inline Val get_sub(const Sub &s, int f) {
@@ -356,6 +359,7 @@ inline Val gen_val(int f, const PSpec &p) {
       }
       break;
     }
+    case K_ABOOL: for (int k = 0; k < 3; k++) v.ai.push_back(vf::coin()); break;
     default: for (int k = 0; k < 4; k++) v.af.push_back((double)vf::pick<int>(-40, 40) / 4.0); break;
   }
   return v;
@@ -387,6 +391,7 @@ inline AppSpec gen_spec() {
   bool presets = vf::chance(60);
   if (presets) { PSpec p; p.field = PRESET; p.has_range = true; p.mn = 0; p.mx = 2; p.has_default = true; p.has_preset.assign(3, 0); Val d; d.i = vf::pickn(3); p.dflt.assign(4, d); s.root.push_back(p); }
   for (int f = RI; f < EN; f++) if (vf::chance(55)) s.root.push_back(gen_pspec(f, presets));
+  if (vf::chance(35)) s.root.push_back(gen_pspec(VP, false));
   s.has_sub = vf::chance(75); s.has_psub = vf::chance(40); s.has_subs = vf::chance(40); s.psub_null = vf::chance(40);
   bool en = (s.has_sub || s.has_psub || s.has_subs) && vf::chance(50);
   if (en) {
@@ -409,6 +414,8 @@ inline AppSpec gen_spec() {
   return s;
 }
 
+// index for array-valued fields (-1 for scalars)
+inline int gen_idx(int field) { switch (kind_of(field)) { case K_AINT: return vf::pickn(8); case K_AFLOAT: return vf::pickn(4); case K_ABOOL: return vf::pickn(3); default: return -1; } }
 // ---- one parameter message
 struct Set {
   int target = 0;   // 0 root, 1 sub, 2 psub, 3.. subs[target-3]
@@ -430,6 +437,7 @@ inline std::string encode_set(const Set &s, const PSpec &p) {
     case K_OPT: if (s.by_symbol) { tags = "S"; a.t = 'S'; a.s = p.opts[(size_t)s.v.i]; } else { tags = "i"; a.t = 'i'; a.u = (uint32_t)s.v.i; } break;
     case K_CHAR: tags = "c"; a.t = 'c'; a.u = (uint32_t)s.v.i; break;
     case K_STR: tags = "s"; a.t = 's'; a.s = s.v.s; break;
+    case K_ABOOL: addr += std::to_string(s.idx) + "/on"; tags = s.v.ai[(size_t)s.idx] ? "T" : "F"; a.t = tags[0]; break;
     case K_AINT: addr += std::to_string(s.idx); tags = "i"; a.t = 'i'; a.u = (uint32_t)(int32_t)s.v.ai[(size_t)s.idx]; break;
     default: { addr += std::to_string(s.idx); tags = "f"; a.t = 'f'; float f = (float)s.v.af[(size_t)s.idx]; uint32_t u; memcpy(&u, &f, 4); a.u = u; break; }
   }
@@ -453,7 +461,7 @@ inline std::vector<Set> gen_history(const AppSpec &spec, int maxlen) {
     const PSpec &p = ps[(size_t)vf::pickn((int)ps.size())];
     s.field = p.field;
     s.v = vf::chance(25) && p.has_default ? p.dflt[(size_t)vf::pickn(4)] : gen_val(p.field, p);   // sometimes exactly a default
-    if (kind_of(p.field) == K_AINT || kind_of(p.field) == K_AFLOAT) s.idx = vf::pickn(kind_of(p.field) == K_AINT ? 8 : 4);
+    s.idx = gen_idx(p.field);
     s.by_symbol = vf::coin();
     h.push_back(s);
   }
@@ -463,7 +471,7 @@ inline std::vector<Set> gen_history(const AppSpec &spec, int maxlen) {
 inline void model_apply(App &m, const Set &s) {
   if (s.target == 0) {
     Val cur = get_root(m.root, s.field);
-    if (s.idx >= 0) { if (kind_of(s.field) == K_AINT) cur.ai[(size_t)s.idx] = s.v.ai[(size_t)s.idx]; else cur.af[(size_t)s.idx] = s.v.af[(size_t)s.idx]; }
+    if (s.idx >= 0) { if (kind_of(s.field) == K_AINT || kind_of(s.field) == K_ABOOL) cur.ai[(size_t)s.idx] = s.v.ai[(size_t)s.idx]; else cur.af[(size_t)s.idx] = s.v.af[(size_t)s.idx]; }
     else cur = s.v;
     bool rt_changes = s.field == RT && get_root(m.root, RT).i != cur.i;
     set_root(m.root, s.field, cur);
